@@ -145,7 +145,11 @@ def _module_dicts(mod):
     """module-level NAME = {<str>: ...} (also annotated) -> {NAME: set of string keys}; tuple tables of
     ((<str>, ...), rule) rows -> the strings of the first column"""
     out = {}
-    for st in mod.tree.body:
+    bodies = list(mod.tree.body)
+    for c_ in mod.tree.body:
+        if isinstance(c_, ast.ClassDef):
+            bodies += c_.body          # class-level tables (self.TABLE / cls.TABLE)
+    for st in bodies:
         tg, val = None, None
         if isinstance(st, ast.Assign) and len(st.targets) == 1 and isinstance(st.targets[0], ast.Name):
             tg, val = st.targets[0].id, st.value
@@ -185,6 +189,9 @@ def handled_consts(f, ctx=None):
             # table-driven dispatch: `x.type in TABLE`, `TABLE[x.type]`, `TABLE.get(x.type)`, `for types, rule in TABLE`
             if isinstance(n, ast.Name) and isinstance(n.ctx, ast.Load) and n.id in tables:
                 out |= tables[n.id]
+            if isinstance(n, ast.Attribute) and isinstance(n.ctx, ast.Load) and n.attr in tables \
+                    and isinstance(n.value, ast.Name):
+                out |= tables[n.attr]
     for n in [x for g in funcs for x in (own_nodes(g.node) if g is f else ast.walk(g.node))]:
         if isinstance(n, ast.Match):
             for c in n.cases:
